@@ -656,7 +656,7 @@ theorem src_mask_keeps_whole_triangles (k : Kind) (d : Nat) (M : Mesh P C T) (m 
     (hwf : WF M.pts.length M.tris) (hne : M.tris.filter (wholeTri m) ≠ []) :
     ∃ R ρ, genFromMask k (M.toN d) m = .ok R ∧
       R.trilist = rows ((M.tris.filter (wholeTri m)).map (Tri.map ρ)) := by
-  obtain ⟨R, ρ, h, ht⟩ := mask_keeps_whole_triangles M m hlen hall hwf hne
+  obtain ⟨R, ρ, h, ht, _, _⟩ := mask_keeps_whole_triangles M m hlen hall hwf hne
   exact ⟨R.toN d, ρ, by rw [genFromMask_model k d M m hk, h]; rfl, by simp [Mesh.toN, ht]⟩
 
 /-- PROPERTY for the translated methods ("renumbers the triangle list consistently …", "carries per-vertex
